@@ -32,7 +32,7 @@ Lemma S_run_autocommit_seq : forall ss db buf,
 Proof.
   induction ss as [|s ss IH]; intros db buf; [reflexivity|].
   cbn [fold_left]. rewrite IH. f_equal.
-  unfold step, M_autocommit, next_of.
+  unfold step, M_autocommit, next_of, view_of.
   destruct (eval (apply_ops db buf) (gnext (apply_ops db buf)) s) as [ops ok].
   destruct ok; cbn [orb negb].
   - apply apply_ops_app.
@@ -44,11 +44,11 @@ Proof. intros. unfold S_txn, txn, run. rewrite S_run_autocommit_seq. reflexivity
 
 (* ---------- C13, explicit transactions: outside K-C13-buffer the code is atomic ---------- *)
 Lemma step_clean_eq : forall (ryw : bool) db buf s,
-  fails_dirty (if ryw then apply_ops db buf else db) (next_of db buf) s = false ->
+  fails_dirty (view_of ryw db buf s) (next_of db buf) s = false ->
   step ryw false db buf s = step ryw true db buf s.
 Proof.
   intros ryw db buf s H. unfold step, fails_dirty in *.
-  destruct (eval (if ryw then apply_ops db buf else db) (next_of db buf) s) as [ops ok].
+  destruct (eval (view_of ryw db buf s) (next_of db buf) s) as [ops ok].
   destruct ok; cbn [orb negb andb] in *; [reflexivity|].
   destruct ops; [now rewrite app_nil_r | discriminate].
 Qed.
@@ -74,7 +74,7 @@ Proof.
 Qed.
 
 (* ---------- C24: statements that read nothing see the same thing either way ---------- *)
-Definition is_create (s : stmt) : bool := match s with SCreate _ => true | SSyntax => true | _ => false end.
+Definition is_create (s : stmt) : bool := match s with SCreate _ => true | SCreateNL _ => true | SSyntax => true | _ => false end.
 
 Lemma eval_create_view : forall v1 v2 n s, is_create s = true -> eval v1 n s = eval v2 n s.
 Proof. intros v1 v2 n s H. destruct s; try discriminate; reflexivity. Qed.
@@ -86,7 +86,7 @@ Proof.
   cbn [forallb] in H. apply andb_true_iff in H. destruct H as [H1 H2].
   cbn [fold_left].
   assert (E : step false atomic db buf s = step true atomic db buf s).
-  { unfold step. now rewrite (eval_create_view db (apply_ops db buf) _ s H1). }
+  { unfold step. now rewrite (eval_create_view (view_of false db buf s) (view_of true db buf s) _ s H1). }
   rewrite E. apply IH. exact H2.
 Qed.
 
@@ -102,7 +102,7 @@ Lemma w13_fails : fails db0 (gnext db0) w13 = true.
 Proof. vm_compute. reflexivity. Qed.
 Lemma w13_effect : dump_eqb (M_txn db0 [w13]) db0 = false.
 Proof. vm_compute. reflexivity. Qed.
-Lemma w13_dump : dump_nodes (M_txn db0 [w13]) = [(1, [(0%N, 1)]); (2, [(0%N, 2)]); (3, [])].
+Lemma w13_dump : dump_nodes (M_txn db0 [w13]) = [(1, [0%N], [(0%N, 1)]); (2, [0%N], [(0%N, 2)]); (3, [0%N], [])].
 Proof. vm_compute. reflexivity. Qed.
 
 Definition w24a : stmt := SCreate [(10, CInt 0)].
@@ -111,9 +111,9 @@ Lemma w24_ok : statuses false false db0 [] [w24a; w24b] = [true; true].
 Proof. vm_compute. reflexivity. Qed.
 Lemma w24_differs : dump_eqb (M_txn db0 [w24a; w24b]) (S_txn db0 [w24a; w24b]) = false.
 Proof. vm_compute. reflexivity. Qed.
-Lemma w24_S : dump_nodes (S_txn db0 [w24a; w24b]) = [(10, [(0%N, 0); (1%N, 7)])].
+Lemma w24_S : dump_nodes (S_txn db0 [w24a; w24b]) = [(10, [0%N], [(0%N, 0); (1%N, 7)])].
 Proof. vm_compute. reflexivity. Qed.
-Lemma w24_M : dump_nodes (M_txn db0 [w24a; w24b]) = [(10, [(0%N, 0)])].
+Lemma w24_M : dump_nodes (M_txn db0 [w24a; w24b]) = [(10, [0%N], [(0%N, 0)])].
 Proof. vm_compute. reflexivity. Qed.
 
 (* non-vacuity: a transaction with a clean failure (refused DELETE) and with reads of committed data *)
@@ -123,3 +123,30 @@ Lemma ss_clean_not_dirty : some_dirty false false db1 [] ss_clean = false.
 Proof. vm_compute. reflexivity. Qed.
 Lemma ss_clean_statuses : statuses false false db1 [] ss_clean = [true; false; false; true].
 Proof. vm_compute. reflexivity. Qed.
+
+(* ---------- what works today: the unlabelled scan sees the nodes staged by earlier statements ---------- *)
+(* label-less CREATE, then MATCH (n) SET / SET n:F1 / REMOVE n:F1 / CREATE (n)-[:R]->(n) in one transaction:
+   the code's transaction equals the spec's *)
+Definition db2 : graph := init_graph [(1, Some 5)] [].
+Definition ss_scan : list stmt :=
+  [SCreateNL [(2, CInt 0)]; SCreate [(3, CInt 1)]; SScanSet 1%N 7; SScanLabel true 1%N; SScanLabel true 2%N;
+   SScanLabel false 1%N; SScanLoop].
+Lemma ss_scan_agrees : dump_eqb (M_txn db2 ss_scan) (S_txn db2 ss_scan) = true.
+Proof. vm_compute. reflexivity. Qed.
+Lemma ss_scan_dump : dump_nodes (M_txn db2 ss_scan) =
+  [(1, [0%N; 2%N], [(0%N, 5); (1%N, 7)]); (2, [2%N], [(0%N, 0); (1%N, 7)]); (3, [0%N; 2%N], [(0%N, 1); (1%N, 7)])].
+Proof. vm_compute. reflexivity. Qed.
+(* and what does not: a labelled scan on a label set earlier in the transaction (K-C24-snapshot) *)
+Lemma labelled_scan_differs :
+  dump_eqb (M_txn db2 [SScanLabel true 1%N; SLabelSet 1%N 1%N 9]) (S_txn db2 [SScanLabel true 1%N; SLabelSet 1%N 1%N 9]) = false.
+Proof. vm_compute. reflexivity. Qed.
+
+(* a refused DELETE — single target, several targets of which a later one is connected, DELETE r, a where a has
+   another relationship — emits nothing: it is a clean failure, outside K-C13-buffer, also inside a transaction *)
+Definition db3 : graph := init_graph [(1, None); (2, None); (3, None); (4, None)] [(2%N, 3%N); (1%N, 2%N); (3%N, 2%N)].
+Definition ss_refused : list stmt := [SDeleteIn false [1; 2; 3]; SDeleteRel 3; SDelete false 4; SSet 1%N [(1, CInt 5)]].
+Lemma ss_refused_clean :
+  some_dirty false false db3 [] ss_refused = false /\
+  statuses false false db3 [] ss_refused = [false; false; false; true] /\
+  dump_eqb (M_txn db3 ss_refused) (M_txn db3 [SSet 1%N [(1, CInt 5)]]) = true.
+Proof. vm_compute. auto. Qed.
